@@ -434,7 +434,7 @@ def w1(ctx, R):
     # of assembling the line (nothing between formatter and write, the argument list used nowhere else) are recorded, not reported;
     # who may write to the socket, CRLF termination and the write buffer's lifetime are reported as ever
     st9 = w9(ctx, R, fmt, snd)
-    prev = ctx.demote(("W1",), "the evaluation of the sender (W9)", keep_keys=("foreign-send", "no-crlf", "stale-write-buffer")) if st9 == "ok" else None
+    prev = ctx.demote(("W1",), "the evaluation of the sender (W9)", keep_keys=("foreign-send", "stale-write-buffer")) if st9 == "ok" else None
     try:
         return _w1(ctx, R)
     finally:
@@ -473,12 +473,46 @@ def _w1(ctx, R):
             a = a.args[0]  # a copy / view of the accumulator
         if isinstance(a, ast.Name) or (isinstance(a, ast.Attribute) and isinstance(a.value, ast.Name) and a.value.id == snd.params[0]):
             t = norm(a)
-            sets = [x for x in walk_no_nested(snd.node) if isinstance(x, ast.Assign) and any(norm(tg) == t for tg in x.targets)]
+            # a local that IS an attribute of the client (`out = self.__write_buffer`, a bytearray filled in place): the object outlives
+            # the call - its lifetime rule below applies whatever the shape of the pieces
+            alias_of = None
+            if isinstance(a, ast.Name):
+                ds_ = [x for x in walk_no_nested(snd.node) if isinstance(x, ast.Assign) and any(isinstance(tg, ast.Name) and tg.id == a.id for tg in x.targets)]
+                if len(ds_) == 1 and isinstance(ds_[0].value, ast.Attribute) and isinstance(ds_[0].value.value, ast.Name) \
+                        and ds_[0].value.value.id == snd.params[0]:
+                    alias_of = ds_[0]
+            if alias_of is not None:
+                tt = norm(alias_of.value)
+
+                def empties_alias(x):
+                    if isinstance(x, ast.Expr) and isinstance(x.value, ast.Call) and isinstance(x.value.func, ast.Attribute) \
+                            and x.value.func.attr == "clear" and norm(x.value.func.value) in (t, tt):
+                        return True
+                    if isinstance(x, ast.Delete):
+                        return any(isinstance(tg, ast.Subscript) and norm(tg.value) in (t, tt) and isinstance(tg.slice, ast.Slice)
+                                   and tg.slice.lower is None and tg.slice.upper is None for tg in x.targets)
+                    return False
+                cfgs = cfgs or ctx.cfg(snd)
+                fills = [x for x in walk_no_nested(snd.node) if isinstance(x, ast.AugAssign) and norm(x.target) in (t, tt)]
+                clears = [x for x in walk_no_nested(snd.node) if empties_alias(x)]
+                cn_ = [n_ for x in clears for n_ in cfgs.nodes_for(x)]
+                before = bool(clears) and all(cfgs.dominates(cn_, n_, exc=False) for x in fills for n_ in cfgs.nodes_for(x))
+                in_fin = any(isinstance(tr_, ast.Try) and any(contains(b_, c) for b_ in tr_.body) and any(empties_alias(x) for x in tr_.finalbody)
+                             for tr_ in walk_no_nested(snd.node))
+                if before or in_fin:
+                    ctx.holds("W1", "%s: the client's accumulator %s (local name %s) is emptied %s" % (
+                        snd.qualname, tt, t, "before it is filled" if before else "in the finally clause of the write"))
+                else:
+                    ctx.violation("W1", snd, "stale-write-buffer", "the sender collects its output in %s (through the local %s), which outlives the "
+                                  "call, and empties it only after a successful write: when a write raises, the unsent command is sent together "
+                                  "with the next one" % (tt, t), node=c,
+                                  witness="sendall raises (timeout) during deletescript('a'); the next listscripts() writes DELETESCRIPT \"a\" again")
+            sets = [x for x in walk_no_nested(snd.node) if isinstance(x, ast.Assign) and any(norm(tg) == t for tg in x.targets) and x is not alias_of]
             adds = [x for x in walk_no_nested(snd.node) if isinstance(x, ast.AugAssign) and norm(x.target) == t]
 
             def crlf_after_line(x):
                 # `acc += line` immediately followed by `acc += CRLF`
-                if const_value(ctx.program, snd, x.value) != b"\r\n":
+                if not isinstance(x, ast.AugAssign) or const_value(ctx.program, snd, x.value) != b"\r\n":
                     return False
                 par = getattr(x, "_parent", None)
                 for fld in ("body", "orelse", "finalbody"):
@@ -607,8 +641,17 @@ def w9(ctx, R, fmt=None, snd=None, rule="W9"):
     def F(x):
         # what the formatter makes of an argument: a quoted form, or - for a value with blanks in it - a literal, which ends with the
         # value's own last byte
-        return b"{%d+}\r\n" % len(x) + x if (b" " in x or b"\t" in x) else b"<" + x + b">"
-    for args in (None, [b"a"], [b"a", b"b", b"c"], [b"a", b"b \t  c  "], [b" "]):
+        return b"{%d+}\r\n" % len(x) + x if (b" " in x or b"\t" in x or b"\n" in x) else b"<" + x + b">"
+    # sizes the sender itself mentions (a block size for writes, a threshold): lines that end just before, at and just after them
+    cenv = R.const_env(snd.params[0])
+    sizes = {n_.value for n_ in ast.walk(snd.node) if isinstance(n_, ast.Constant) and type(n_.value) is int and 16 <= n_.value <= 65536}
+    for n_ in walk_no_nested(snd.node):
+        if isinstance(n_, ast.Attribute) and isinstance(n_.value, ast.Name) and n_.value.id == snd.params[0]:
+            cv_ = cenv.get("%s.%s" % (snd.params[0], n_.attr))
+            if isinstance(cv_, fd.Const) and type(cv_.v) is int and 16 <= cv_.v <= 65536:
+                sizes.add(cv_.v)
+    boundary = [[b"x" * (L - 7)] for k_ in sorted(sizes)[:3] for L in (k_ - 2, k_ - 1, k_, k_ + 1, 2 * k_ - 1, 2 * k_) if L - 7 > 0]
+    for args in [None, [b"a"], [b"a", b"b", b"c"], [b"a", b"b \t  c  "], [b" "], [b"a", b"keep;\r\n"], [b"\r\n"]] + boundary:
         for extra in ((None, [b"x", b"yy"]) if pextra else (None,)):
             def oracle(interp, e, name, recv, a, kw, st):
                 if name == "self." + fmt.name or (name and mangle(R.cls.name, name[5:]) == fmt.name):
@@ -621,8 +664,9 @@ def w9(ctx, R, fmt=None, snd=None, rule="W9"):
                 if name and name.startswith("self.") and name[5:] in R.methods:
                     return [(fd.Unknown(name), None)]
                 return None
-            it = fd.Interp(snd.node, R.cls.name, oracle, resolve=module_resolver(ctx.program, R.module))
-            env = {pname: fd.Const("VERB"), pargs: fd.Const(args)}
+            it = fd.Interp(snd.node, R.cls.name, oracle, resolve=module_resolver(ctx.program, R.module), loop_unroll=6)
+            env = dict(cenv)
+            env.update({pname: fd.Const("VERB"), pargs: fd.Const(args)})
             if pextra:
                 env[pextra] = fd.Const(extra)
             for q in snd.params[1:] + [a_.arg for a_ in snd.node.args.kwonlyargs]:
@@ -646,8 +690,10 @@ def w9(ctx, R, fmt=None, snd=None, rule="W9"):
                 if got != want:
                     facts = "; ".join(sorted({norm(f_[0])[:40] + ("" if f_[1] else " is false") for f_ in getattr(p, "facts", []) or []
                                               if hasattr(f_[0], "lineno")}))[:200] if False else ""
+                    def short(b_):
+                        return b_ if not isinstance(b_, (bytes, bytearray)) or len(b_) < 80 else b_[:30] + b"...(%d octets)..." % len(b_) + b_[-30:]
                     ctx.violation(rule, snd, "wire-bytes", "with args=%r, extra lines=%r the sender writes %r on some path; the command is %r"
-                                  % (args, extra, got, want), node=snd.node,
+                                  % ([short(x) for x in args] if args else args, extra, short(got), short(want)), node=snd.node,
                                   witness="a command whose arguments the server never receives as the caller passed them")
                     return "bad"
     # the caller's list is an object: run again with a shared (mutable) list and every concrete setting of the boolean parameters and
